@@ -6,10 +6,12 @@ import (
 	"strings"
 
 	schema "github.com/jsightapi/jsight-schema-core"
+	"github.com/jsightapi/jsight-schema-core/kit"
 	"github.com/jsightapi/jsight-schema-core/notations/jschema"
 	"github.com/jsightapi/jsight-schema-core/notations/jschema/ischema"
 
 	"github.com/jsightapi/jsight-api-core/catalog"
+	"github.com/jsightapi/jsight-api-core/directive"
 	"github.com/jsightapi/jsight-api-core/jerr"
 )
 
@@ -60,8 +62,9 @@ func (core *JApiCore) collectPiecesOfPathVariables() *jerr.JApiError {
 
 			if defined {
 				core.piecesOfPathVariables[pp] = PieceOfPathVariable{
-					node:  paramSchema,
-					types: types,
+					node:          paramSchema,
+					types:         types,
+					pathDirective: &core.rawPathVariables[i].pathDirective,
 				}
 				delete(schemaProps, pp.parameter)
 			} else if !registered {
@@ -86,13 +89,24 @@ func (core *JApiCore) setPathVariablesToCatalog() *jerr.JApiError {
 				pp := pathParameters(v.Path().String())
 
 				b := catalog.NewPathVariablesBuilder(core.catalog.UserTypes)
+				var pathDirective *directive.Directive
 				for _, p := range pp {
 					if piece, ok := core.piecesOfPathVariables[p]; ok {
 						b.AddProperty(p.parameter, piece.node.Copy(), piece.types)
+						if pathDirective == nil {
+							pathDirective = piece.pathDirective
+						}
 					}
 				}
 				if b.Len() != 0 {
-					hi.SetPathVariables(b.Build())
+					pv, err := buildPathVariables(b)
+					if err != nil {
+						if pathDirective == nil {
+							return nil, core.japiError(err.Error(), 0)
+						}
+						return nil, pathDirective.KeywordError(err.Error())
+					}
+					hi.SetPathVariables(pv)
 				}
 			}
 			return v, nil
@@ -103,6 +117,26 @@ func (core *JApiCore) setPathVariablesToCatalog() *jerr.JApiError {
 	}
 
 	return nil
+}
+
+// buildPathVariables builds the schema of the path variables and checks that it
+// can be serialized: the schemas of the Path directives are loaded without the
+// compilation, so some errors (i.e. undefined user type) can be found only here.
+func buildPathVariables(b catalog.PathVariablesBuilder) (pv *catalog.PathVariables, err error) {
+	defer func() {
+		if r := recover(); r != nil {
+			err = fmt.Errorf("incorrect schema of the path variables: %v", r)
+		}
+	}()
+	pv = b.Build()
+	if err := pv.Schema.Compile(); err != nil {
+		var e kit.Error
+		if errors.As(err, &e) {
+			return nil, errors.New(e.Message())
+		}
+		return nil, err
+	}
+	return pv, nil
 }
 
 func (core *JApiCore) checkPathSchema(s *jschema.JSchema) error {
